@@ -130,3 +130,12 @@ pub fn check_candidate(a: &Args) {
     }
     println!("replies={}", out.join(","));
 }
+
+/// session_mirror have=<pids> enrolled=0|1 kind=<Spawn|Terminate|PgJoin|PgLeave> list=<pids>
+pub fn mirror(a: &Args) {
+    let have: Vec<u64> = a.list_u128("have").iter().map(|x| *x as u64).collect();
+    let list: Vec<u64> = a.list_u128("list").iter().map(|x| *x as u64).collect();
+    let rt = tokio::runtime::Builder::new_current_thread().enable_time().build().unwrap();
+    let out = rt.block_on(ractor_cluster::node::node_session::verif_probe::verif_mirror(&have, a.u64("enrolled") == 1, a.str("kind"), &list));
+    println!("out={}", out.replace('=', "~"));
+}
